@@ -30,6 +30,8 @@
  *   sample <id> <is16> <stereo> <loop> <base> <elems>     original allocation, before first use
  *   tick
  *   mix <voc> <id> <start> <end> <sampleLoop> <bidir> <nearest> | <window of real memory>
+ *   vend <loop> <sloop> <loopbidir> <sloopbidir> <loopfull> <len> <lps> <lpe> <sus> <sue> <release> <sampleLoop> | <start> <end> <bidir>
+ *                                   (before every mix line) what adjust_voice_end reads | the voice's end points
  *   tickend <ndiff>                 number of samples whose allocation differs from the snapshot
  *   skel_end
  */
@@ -359,6 +361,14 @@ static void on_mix(struct mixer_voice *vi)
 		printf("sample %d %d %d %d %d ", vi->smp, sn->is16, sn->stereo, (xxs->flg & XMP_SAMPLE_LOOP) ? 1 : 0, base);
 		put_elems(stdout, sn->copy, sn->size, sn->is16);
 		printf("\n");
+	}
+	{
+		struct extra_sample_data *xt = &ctx->m.xtra[vi->smp];
+		printf("vend %d %d %d %d %d %d %d %d %d %d %d %d | %d %d %d\n", (xxs->flg & XMP_SAMPLE_LOOP) ? 1 : 0,
+		       (xxs->flg & XMP_SAMPLE_SLOOP) ? 1 : 0, (xxs->flg & XMP_SAMPLE_LOOP_BIDIR) ? 1 : 0,
+		       (xxs->flg & XMP_SAMPLE_SLOOP_BIDIR) ? 1 : 0, (xxs->flg & XMP_SAMPLE_LOOP_FULL) ? 1 : 0, xxs->len, xxs->lps,
+		       xxs->lpe, xt->sus, xt->sue, (vi->flags & VOICE_RELEASE) ? 1 : 0, (vi->flags & SAMPLE_LOOP) ? 1 : 0,
+		       vi->start, vi->end, (vi->flags & VOICE_BIDIR) ? 1 : 0);
 	}
 	printf("mix %d %d %d %d %d %d %d | ", voc, vi->smp, vi->start, vi->end, (vi->flags & SAMPLE_LOOP) ? 1 : 0,
 	       (vi->flags & VOICE_BIDIR) ? 1 : 0, ctx->s.interp == XMP_INTERP_NEAREST ? 1 : 0);
